@@ -168,10 +168,14 @@ def main(argv=None):
         # one forked process per job (at most --jobs at a time): a job that dies (out of memory,
         # signal) or does not come back by the deadline is reported as a checker error (exit 3),
         # never as "held", and cannot take the other jobs or the check itself down with it.
-        # fix the time scale before forking so that every job uses the same one
-        scale = engine.time_scale()
-        os.environ["VERIF_TIME_SCALE"] = "%.3f" % scale
-        deadline = time.time() + float(os.environ.get("VERIF_DEADLINE_S", "3000" if tier == "quick" else "21600")) * scale
+        # mirror the package once in the parent: the forked jobs inherit the compiled mirror
+        # (copy on write) instead of re-reading and re-compiling the source per job
+        if any(k == "contract" for k, *_ in jobs) and not os.environ.get("VERIF_NO_PRELOAD"):
+            try:
+                mirror.load(mirror.PKG)
+            except Exception:  # noqa: BLE001 - a job will report the real error
+                pass
+        deadline = time.time() + float(os.environ.get("VERIF_DEADLINE_S", "5400" if tier == "quick" else "28800"))
         results = _run_jobs(ctx, jobs, min(a.jobs, len(jobs)), deadline)
 
     # ------------------------------------------------------------------ aggregate
